@@ -18,6 +18,7 @@ open Genshi Genshi.Xml Genshi.Sexp
     roundtrip <ranges> <stream>        -> read (enc (ser stream))
     domain <pref> <stream>             -> ( inDomain conclusionHolds inTextDomain textConclusionHolds ) for
                                           xml_roundtrip_events / xml_roundtrip_partial
+    reparse <text>                     -> ( ok events-after-EmptyTagFilter ) | N   (spec-side parse)
     coalesce <stream>                  -> stream
     qname <text>                       -> ( ns loc )
   <pref> = ( ( uri prefix ) ... ), <ranges> = ( ( lo hi ) ... )
@@ -62,6 +63,14 @@ def okList (f : α → Sexp) : Option (List α) → Sexp
   | some xs => .list [.atom "ok", .list (xs.map f)]
   | none => .atom "N"
 
+/-- white space outside the root element is not reported by a parser -/
+def dropTopWs : Nat → List FEv → List FEv
+  | _, [] => []
+  | d, .start n a :: es => .start n a :: dropTopWs (d + 1) es
+  | d, .end_ n :: es => .end_ n :: dropTopWs (d - 1) es
+  | 0, .other (.text s f) :: es => if s.all Reader.isSpace then dropTopWs 0 es else .other (.text s f) :: dropTopWs 0 es
+  | d, e :: es => e :: dropTopWs d es
+
 def handle : List Sexp → Option Sexp
   | [.atom "emptytag", s] => do
       let s ← streamOfSexp? s
@@ -100,7 +109,21 @@ def handle : List Sexp → Option Sexp
       let asciiHolds := match serRun SerSt.init (flatten p xs) with
         | some out => decide (Reader.read (encodeText ascii out) = some (canonX xs))
         | none => false
-      pure (.list [ofBool inDom, ofBool holds, ofBool inText, ofBool textHolds, ofBool inAscii, ofBool asciiHolds])
+      -- idempotence (ser_idempotent_partial)
+      let inIdem := inDom && idemOK p xs
+      let idemHolds := match reparseX PSt.init ((flatten p xs).map normF) with
+        | some xs2 => decide (flatten p xs2 = flatten p xs)
+        | none => false
+      pure (.list [ofBool inDom, ofBool holds, ofBool inText, ofBool textHolds, ofBool inAscii, ofBool asciiHolds,
+                   ofBool inIdem, ofBool idemHolds])
+  | [.atom "reparse", .str t] =>
+      -- what XMLParser + EmptyTagFilter deliver for this text, according to the specification side
+      match Reader.tokenize t with
+      | some toks =>
+          match reparseX PSt.init (dropTopWs 0 toks) with
+          | some xs => some (.list [.atom "ok", .list (xs.map xev)])
+          | none => some (.atom "N")
+      | none => some (.atom "N")
   | [.atom "coalesce", s] => do
       let s ← streamOfSexp? s
       pure (streamToSexp (coalesce s))
